@@ -99,7 +99,9 @@ type schedule struct {
 // c07Run reads frame under one schedule and compares with the isolated result.
 func c07Run(c *run.Ctx, f wireFrame, iso isolated, steps []mon.Step, name string, split bool) {
 	rd := &mon.ScriptedReader{Data: f.Bytes, Steps: cloneSteps(steps)}
-	c.Current(func() string { return fmt.Sprintf("ReadPacket frame=%s schedule=%s", hexClip(f.Bytes, 512), stepsString(steps)) })
+	c.Current(func() string {
+		return fmt.Sprintf("ReadPacket frame=%s schedule=%s", hexClip(f.Bytes, 512), stepsString(steps))
+	})
 	res := mon.Read(rd)
 	c.Eval(1)
 	c.Distinct(run.HashBytes(run.Hash64(name, stepsString(steps)), f.Bytes), split)
